@@ -135,6 +135,10 @@ int lrtr_ipv6_str_to_addr(const char *a, struct lrtr_ipv6_addr *ip)
 		words[i++] = j;
 	}
 
+	/* Without :: all eight groups must be present */
+	if (hfil < 0 && i != 8)
+		return -1;
+
 	/* Replace :: with an appropriate quantity of zeros */
 	if (hfil >= 0) {
 		j = 8 - i;
